@@ -13,7 +13,7 @@ def errName : XErr → String
 
 /-- `run <stride> <ctid> <atid> <connect replies> <announce replies>` → `ok <connect sends> <announce sends> <cid|~> <peers hex,…|.|err kind>`
     `connectreq <tid>` / `announcereq <cid> <tid> <ih> <pid> <port>` → `ok <hex>`
-    `command <outcomes: s|f|p:hex,hex;…>` → `ok <exit> <peers>` -/
+    `command <outcomes: s|f|p:hex,hex;…>` → `ok <exit> <peers> <notes: one of s|f per reported tracker, or .>` -/
 def handle (args : List String) : String :=
   match args with
   | ["run", stride, ctid, atid, cr, ar] =>
@@ -52,7 +52,8 @@ def handle (args : List String) : String :=
     match os with
     | some os =>
       let r := announceCommand os
-      s!"ok {r.1} {if r.2.isEmpty then "." else joinWith "," (r.2.map hexOrDash)}"
+      let notes := String.ofList ((announceNotes os).map fun n => match n with | .skipped => 's' | .failed => 'f')
+      s!"ok {r.1} {if r.2.isEmpty then "." else joinWith "," (r.2.map hexOrDash)} {if notes.isEmpty then "." else notes}"
     | none => "bad-op"
   | _ => "bad-op"
 
